@@ -22,17 +22,21 @@ func main() {
 	dump := flag.Bool("dump", false, "keep query files and print obligations")
 	flag.Parse()
 
+	cleanup := func() {}
 	if *work == "" {
 		d, _ := os.MkdirTemp("", "gvc")
 		*work = d
 		if !*dump {
-			defer os.RemoveAll(d)
+			// also on the non-zero exits below (os.Exit skips deferred calls)
+			cleanup = func() { os.RemoveAll(d) } //nolint:errcheck
 		}
 	}
+	defer cleanup()
 	os.MkdirAll(*work, 0o755) //nolint:errcheck
 	eng, err := loadEngine(*repo)
 	if err != nil {
 		fmt.Fprintln(os.Stderr, "LOAD ERROR:", err)
+		cleanup()
 		os.Exit(3)
 	}
 	timeout := 30 * time.Second
@@ -60,9 +64,11 @@ func main() {
 	}
 	printRun(run, *dump)
 	if run.Undecided > 0 {
+		cleanup()
 		os.Exit(3)
 	}
 	if run.Failed > 0 {
+		cleanup()
 		os.Exit(1)
 	}
 }
